@@ -77,7 +77,7 @@ def check(run):
         ders = ["EnumString"] + DERIVE_SETS[i % 4] + (["EnumMessage"] if i % 3 else [])
         gp = (None, None, "T", "N", "Tw", "Tdef") if "IntoStaticStr" in ders else (None, None, "T", "a", "aT", "N", "Tw", "TNdef")
         specs.append(strgen.build(r, "R%d" % i, ders, generics_pool=gp, n=(40 if i in (5, 6) else r.choice([1, 2, 3, 4, 5, 6, 8])), allow_braces=True, raw_bare=True))
-    units = [shards.Unit("u_" + s.name.lower(), glue(s), meta={"enum_src": s.render()}, sig=s.signature(), head=strgen.CAPTURE_HEAD) for s in specs]
+    units = [shards.Unit("u_" + s.name.lower(), glue(s), meta={"enum_src": s.render(), "bare_src": s.render_bare()}, sig=s.signature(), head=strgen.CAPTURE_HEAD) for s in specs]
     run.rule = RULE
     samples = standard_flow(run, units, deps["std"], vmon, profiles=("debug",), tag="c02")
     # the same round trip through the use_phf parser (field-less enums, strum built with the phf feature)
@@ -87,7 +87,7 @@ def check(run):
                           n=r.choice([2, 3, 4, 6, 8]), naming_bias=0.8, allow_braces=True)
         ps.use_phf = True
         pspecs.append(ps)
-    punits = [shards.Unit("u_" + s.name.lower(), glue(s), meta={"enum_src": s.render()}, sig="phf," + s.signature(), head=strgen.CAPTURE_HEAD) for s in pspecs]
+    punits = [shards.Unit("u_" + s.name.lower(), glue(s), meta={"enum_src": s.render(), "bare_src": s.render_bare()}, sig="phf," + s.signature(), head=strgen.CAPTURE_HEAD) for s in pspecs]
     samples.update(standard_flow(run, punits, deps["phf"], vmon, profiles=("debug",), tag="c02p"))
     units = units + punits
     pick_samples(run, samples, {u.name: u for u in units})
